@@ -193,9 +193,9 @@ func modeTrace(self, out string, n int, seed int64, replay *job) error {
 
 // ---- C03 -----------------------------------------------------------------------
 
-var killScripts = []string{"basic", "followstart", "restorev3", "reset", "resetfetch", "republish", "retention", "baseline", "rerestore", "checkpoint", "follow", "sidecar"}
+var killScripts = []string{"basic", "backlog", "followstart", "restorev3", "reset", "resetfetch", "republish", "retention", "baseline", "rerestore", "checkpoint", "follow", "sidecar"}
 
-var dense = map[string]bool{"followstart": true, "restorev3": true}
+var dense = map[string]bool{"followstart": true, "restorev3": true, "backlog": true}
 
 func verifyLTX(path string) (err error) {
 	defer func() {
@@ -452,6 +452,7 @@ func modeKill(self, out string, n int, seed int64, kstep, points int, replay *jo
 				if dense[base.Script] && step > 3 {
 					step = 3 // short protocol scripts: every 3rd call, the windows are a few calls wide
 				}
+
 				if step < 1 {
 					step = 1
 				}
